@@ -22,6 +22,9 @@ EXPLANATION = (
 def check(chk, repo):
     chk.explanation = EXPLANATION
     rep = Rep(chk, repo)
+    from ..common import prototypes_searched
+    if not prototypes_searched(rep, repo, "SemiSupervisedOPF"):
+        return
     w, comps = competitions_of(repo, "SemiSupervisedOPF", "fit", 2)
     prim, comp = comps[0], comps[-1]
     fn = w.entry
